@@ -596,6 +596,18 @@ class Engine:
             names = {n.id for n in walk_no_nested(f.node) if isinstance(n, ast.Name)}
             if {"RTCM_PAYLOADS_GET", "RTCM_PAYLOADS_GET_MSM", "RTCM_PAYLOADS_GET_IGS"} <= names:
                 c.append(f.qualname)
+        if not c:
+            # the tables may be consulted through something derived from them at import: then the selector is the method the attributes driver
+            # calls (outside the decoder cycle) that still names one of them
+            try:
+                drv = self.attributes_driver
+                cal = self.res.callees(drv) - set(self.decoder_cycle)
+            except AnalysisError:
+                cal = set()
+            for f in self.repo.methods(mod, cls):
+                names = {n.id for n in walk_no_nested(f.node) if isinstance(n, ast.Name)}
+                if f.qualname in cal and names & {"RTCM_PAYLOADS_GET", "RTCM_PAYLOADS_GET_MSM", "RTCM_PAYLOADS_GET_IGS"}:
+                    c.append(f.qualname)
         return self._one("definition selector", c)
 
     @cached_property
